@@ -170,4 +170,13 @@ theorem C16_follower_same_updates_refuted :
     ⟨"tok", "r", 0, 0, none, []⟩ ⟨"tok", "r", 0, 0, none, []⟩ rfl
   simp [mutatingSF] at this
 
+/-- Tie (T1): `do` of both middlewares — call/branch/store skeletons regenerated from the source on every run; the expectations below are
+what the model in this file transliterates. A structural edit of any of these functions breaks this theorem and sends the
+check searching for a failing input. -/
+theorem C16_wiring :
+    Sso.Generated.skel_proxy_sf_do =
+      ["call:Sprintf", "call:Do", "if{", "call:Sprintf", "call:float64", "call:Incr", "}", "return"] ∧
+    Sso.Generated.skel_auth_sf_do =
+      ["call:Sprintf", "call:Do", "if{", "call:Sprintf", "call:float64", "call:Incr", "}", "return"] := by decide
+
 end Sso.SfWrappers
